@@ -3,6 +3,29 @@ import json, os
 VERIF = os.path.dirname(os.path.dirname(os.path.abspath(__file__)))
 PROOF = "proof"
 CHECKS = {
+ "C09": dict(
+    text="Lean 4 theorems: numerator and denominator of sobol() are the mask-weighted and the total sum of a(j)·am(j) over the extended "
+         "index box (C06.dot_eq + C02.mul_dense), additivity over masks, the all-ones mask gives index 1, the ANOVA operator only sees "
+         "w/Σw (scale invariance of marginals); the entries of the extended tensor are the ANOVA terms (C10.anova_dense). "
+         "anova_decomposition/undo, dot and mul are tied to /repo core-for-core (C10, C06, C02 correspondences); the Sobol values, "
+         "[0,1] range, total ≥ component, dimension distribution, mean dimension and the caller's marginals being untouched are checked "
+         "against a brute-force inclusion–exclusion ANOVA in NumPy.",
+    note="Trusted: Lean kernel + standard axioms; harness glue; NumPy brute-force oracle; sampling. The final identification of "
+         "Σ_j mask(j)a(j)am(j) with the variance components D_S needs the orthogonality of ANOVA terms, which is not formalised (open); "
+         "sobol()'s own glue (removing the empty term, weighting rows, clamped mask gather, identity core for one-hot masks) has no Lean "
+         "model and is covered by the oracle only.",
+    tech="Lean 4 proof (composition of C06/C02/C10 theorems) + differential correspondence of the building blocks + brute-force oracle",
+    ref="§3 C09"),
+ "C10": dict(
+    text="Lean 4 theorems: anova_decomposition applies to every mode the operator A=[wᵀ; I−1wᵀ] (anova_dense, any modes/ranks/formats); "
+         "row 0 integrates against the marginal, row i+1 evaluates and subtracts the integral (anovaL_row); B·A=I (undo is the inverse, "
+         "no condition on weights); rows 1..I have zero weighted mean when Σw=1 (centred terms); normalised weights sum to 1 and are "
+         "scale-invariant. anova_decomposition and undo are tied to /repo core-for-core; all term-level claims (each term equals the "
+         "brute-force term, depends only on its variables, orthogonality, variance additivity, truncate_anova) by a NumPy oracle.",
+    note="Trusted: Lean kernel + standard axioms; harness glue; NumPy brute-force oracle; sampling. Open (not formalised): uniqueness "
+         "and orthogonality of the terms, the tensor-level composition undo∘anova (matrix identity B·A=I is proved), truncate_anova.",
+    tech="Lean 4 proof (L1 with the ANOVA operator; matrix identities over a field) + differential correspondence + brute-force oracle",
+    ref="§3 C10"),
  "C15": dict(
     text="Lean 4 theorem truth_table: every formula tree over ~ & | ^ (any depth, any number of variables) decompresses to exactly its "
          "0/1 truth table — the operator overloads are arithmetic expressions (C02.expr_dense) that coincide with the connectives on "
